@@ -387,45 +387,50 @@ Section Reader.
 
   (* dns.name.from_wire_parser: the `while count != 0` loop.  Same transitions as
      NameM.fw_go; the fuel is split (pointer budget fp, label budget fl, both linear in the
-     message size) so that it is cheap to evaluate.  Returns labels and parser.furthest. *)
+     message size) so that it is cheap to evaluate.  nm_lab reads labels until the root label
+     or a pointer; `jump` is the continuation after a pointer.  Returns labels and
+     parser.furthest. *)
+  Fixpoint nm_lab (endp : nat) (jump : nat -> nat -> list label -> res (list label * nat))
+           (biggest : nat) (fl : nat) (cur fur : nat) (acc : list label) {struct fl}
+    : res (list label * nat) :=
+    match fl with
+    | O => Internal iFuel
+    | S fl' =>
+        match rd_u8 endp cur with
+        | Lib e => Lib e
+        | Internal e => Internal e
+        | Ok count =>
+            let fur1 := Nat.max fur (cur + 1) in
+            if count =? 0 then Ok (rev ([] :: acc), fur1)
+            else if count <? 64 then
+              match rd_bytes endp (cur + 1) (Z.to_nat count) with
+              | Lib e => Lib e
+              | Internal e => Internal e
+              | Ok l =>
+                  let cur2 := (cur + 1 + Z.to_nat count)%nat in
+                  nm_lab endp jump biggest fl' cur2 (Nat.max fur1 cur2) (l :: acc)
+              end
+            else if 192 <=? count then
+              match rd_u8 endp (cur + 1) with
+              | Lib e => Lib e
+              | Internal e => Internal e
+              | Ok lo =>
+                  let fur2 := Nat.max fur1 (cur + 2) in
+                  let c := Z.to_nat ((count - 192) * 256 + lo) in
+                  if Nat.leb biggest c then Lib eBadPointer
+                  else if Nat.ltb endp c then Lib eFormError
+                  else jump c fur2 acc
+              end
+            else Lib eBadLabelType
+        end
+    end.
+
   Fixpoint nm_ptr (endp : nat) (fp : nat) (cur fur biggest : nat) (acc : list label) {struct fp}
     : res (list label * nat) :=
     match fp with
     | O => Internal iFuel
     | S fp' =>
-        (fix nm_lab (fl : nat) (cur fur : nat) (acc : list label) {struct fl}
-           : res (list label * nat) :=
-           match fl with
-           | O => Internal iFuel
-           | S fl' =>
-               match rd_u8 endp cur with
-               | Lib e => Lib e
-               | Internal e => Internal e
-               | Ok count =>
-                   let fur1 := Nat.max fur (cur + 1) in
-                   if count =? 0 then Ok (rev ([] :: acc), fur1)
-                   else if count <? 64 then
-                     match rd_bytes endp (cur + 1) (Z.to_nat count) with
-                     | Lib e => Lib e
-                     | Internal e => Internal e
-                     | Ok l =>
-                         let cur2 := (cur + 1 + Z.to_nat count)%nat in
-                         nm_lab fl' cur2 (Nat.max fur1 cur2) (l :: acc)
-                     end
-                   else if 192 <=? count then
-                     match rd_u8 endp (cur + 1) with
-                     | Lib e => Lib e
-                     | Internal e => Internal e
-                     | Ok lo =>
-                         let fur2 := Nat.max fur1 (cur + 2) in
-                         let c := Z.to_nat ((count - 192) * 256 + lo) in
-                         if Nat.leb biggest c then Lib eBadPointer
-                         else if Nat.ltb endp c then Lib eFormError
-                         else nm_ptr endp fp' c fur2 c acc
-                     end
-                   else Lib eBadLabelType
-               end
-           end) (S endp) cur fur acc
+        nm_lab endp (fun c fur' acc' => nm_ptr endp fp' c fur' c acc') biggest (S endp) cur fur acc
     end.
 
   (* parser.get_name() without origin: name and the new parser.current (= furthest) *)
